@@ -33,7 +33,7 @@ NLANES = 16
 from sim.gen import derive  # noqa: E402
 
 QUICK = {"C01": 9000, "C02": 8000, "C03": 8000, "C04": 8000, "C05": 8000, "C06": 5000, "C07": 7000,
-         "C08": 6000, "C09": 8000, "C10": 5000, "C10H": 2500, "C11": 6000, "C12": 2500, "C15": 3000,
+         "C08": 6000, "C09": 8000, "C10": 9000, "C10H": 2500, "C11": 6000, "C12": 2500, "C15": 3000,
          "C16": 5000, "C17": 6000, "C18": 2500, "C19": 4000}
 THOROUGH_FACTOR = 25
 PROPS = ["C01", "C02", "C03", "C04", "C05", "C06", "C07", "C08", "C09", "C10", "C11", "C12", "C15", "C16",
@@ -351,6 +351,7 @@ def do_check(prop, tier, count=None, jobs=None, seed=None, minimise_budget=45.0,
             hash_lanes = []
         # ---- aggregate
         stats, sigs, viols, samples, herr = {}, {}, [], [], []
+        shapes = set()
         evaluated = 0
         from sim.gen import merge_stats
         for r in lanes:
@@ -359,6 +360,7 @@ def do_check(prop, tier, count=None, jobs=None, seed=None, minimise_budget=45.0,
             for k, v in r["sigs"].items():
                 sigs[k] = sigs.get(k, 0) + v
             viols.extend(r["violations"])
+            shapes.update(r.get("shapes", []))
             samples.extend(r["samples"][:1])
             herr.extend(r["harness_errors"])
         for r in hash_lanes:
@@ -387,7 +389,7 @@ def do_check(prop, tier, count=None, jobs=None, seed=None, minimise_budget=45.0,
         replays = []
         for cls, vs in unlisted[:4]:
             v = vs[0]
-            path = _report(prop, cls, v, seed, hash_lanes, minimise_budget, pool)
+            path = _report(prop, cls, v, seed, hash_lanes, minimise_budget, pool, tier)
             replays.append(path)
             say("VIOLATION property=%s replay=%s class=%s count=%d detail=%s" % (prop, path, cls, len(vs), v["detail"][:300]))
             exit_code = 1
@@ -402,6 +404,8 @@ def do_check(prop, tier, count=None, jobs=None, seed=None, minimise_budget=45.0,
             "coverage": {
                 "evaluations": total_eval,
                 "distinct_nontrivial": len(sigs),
+                "distinct_final_states": len(shapes),
+                "distinct_final_states_measure": "CRC of the final lattice shape (per column and layer: entries, live, postponed; expansion round) for matching sessions, of the final reference-store state (counts, index and transaction state, restarts) for store sessions",
                 "rule": rules_text(prop),
                 "samples": samples[:3],
                 "simulated_runs": total_eval,
@@ -480,16 +484,18 @@ def _regen(prop, seed, index, tier="quick"):
     import sim.bootstrap  # noqa: F401
     from sim.registry import REG
     from sim import gen
+    import sim.props_a as _pa
+    _pa.TIER = tier
     doc = REG[prop][0](gen.rng_for(seed, prop, index), tier)
     doc["index"] = index
     return doc
 
 
-def _report(prop, cls, v, seed, hash_lanes, budget, pool):
+def _report(prop, cls, v, seed, hash_lanes, budget, pool, tier="quick"):
     """Minimise and write the replay file."""
     sub = v.get("sub", prop)
     if sub == "C10H":
-        doc = _regen("C10H", seed, v["index"])
+        doc = _regen("C10H", seed, v["index"], tier)
         hs = v["hashseeds"]
         servers = [Server(h) for h in hs]
 
